@@ -7,6 +7,15 @@ props = [json.loads(l) for l in open('/verif/properties.jsonl')]
 
 # id -> (technique, level text, level note)
 CHECKS = {
+ "C05": ("exhaustive enumeration of (reachable receiver state) x (input buffer) on the real decap and peek under catch_unwind",
+         "About 2000 receiver snapshots (everything reachable within 3 ops from 24 storage configurations: absent / one buffer / full free list, storage sizes 0/1/4/64, 1 and 2 slots, open contexts on same / aliasing / other ids, any remembered label) are combined with all byte strings of length 0..=3, all fixed headers of 912 (thorough: all 65536) values x 27 buffer lengths x 17 adversarial tails, and every truncation / byte replacement of a 62-packet corpus from the real encapsulator; no panic, consumed <= len, consumed >= min(2,len).",
+         "trusted: catch_unwind + panic hook; the statement's random inputs are replaced by structured complete enumerations"),
+ "C08": ("explicit-state BFS to closure of the real receiver with a conservation invariant + deviation-bounded memory-fault injection behind the public trait",
+         "The closed system real-receiver x caller (provision each owned buffer, new_pdu, reset, decap of each of 40 packets covering every valid kind and every rejection reason) is explored to closure for 1 slot (12k states) and to depth 5 / closure in thorough (586k states, depth 23) for 2 slots; the multiset of buffers (free + contexts + caller incl. results and error payloads) must be invariant on every transition. In every explored state x packet each memory call is additionally failed in turn (1, thorough 2 deviations) through a wrapper implementing GseDecapMemory.",
+         "trusted: buffer identity by pairwise distinct lengths; normalisation of unobservable buffer contents; hook restore fidelity (asserted)"),
+ "C16": ("explicit-state BFS of the real receiver + exhaustive recovery probes in every reachable state",
+         "Every state of the C08 receiver closure (1 slot: closure; 2 slots: depth 5, thorough closure) is restored and probed: reset_last_label, provision one buffer (Ok or overflow), then a valid complete packet with each label kind and a valid 3-fragment PDU on every fragment id of {0,1,aliasing,255} with each label kind must be delivered with the right bytes and metadata.",
+         "trusted: histories drawn from the 40-packet alphabet; probes built by the reference printer"),
  "C15": ("explicit-state BFS to closure over the real Encapsulator with a wire monitor",
          "The reachable state space of the real Encapsulator (cloned per transition) under send x {6 labels} x {complete, first fragment, encap_ext complete/first fragment, 4 failing calls}, zero label, reset, disable, enable, enable-with-max(N) is explored to closure (no depth bound; the counter climbs through all 256 values under N=255); a monitor of what the wire carried judges every emitted start/complete packet (disabled => no substitution, at most N consecutive, full label after reset/broadcast, substitution only for the immediately preceding label).",
          "trusted: the monitor (40 lines) and its rule that the consecutive count restarts when the configuration changes; label alphabet of 6 letters"),
